@@ -864,8 +864,14 @@ func (w *world) drain() {
 	if !w.aborted {
 		da, db := kcp.VerifKCPState(w.a.k), kcp.VerifKCPState(w.b.k)
 		kind := "no-drain"
-		if !w.stream && w.cfg.bigMsg && (w.msgTooBig(w.a, &db) || w.msgTooBig(w.b, &da)) {
-			kind = "no-drain-msg-exceeds-rcvwnd" // DESIGN O1: raw core, message mode
+		// DESIGN O1 (raw core, message mode) has a signature: the receiver's delivery queue is full of
+		// fragments of a message that can never be completed.  Any other stall is not that finding.
+		o1 := func(snd, rcv *endpoint, ds, dr *kcp.VerifKCPDump) bool {
+			return len(ds.SndQueue)+len(ds.SndBuf) > 0 && w.msgTooBig(snd, dr) && len(dr.RcvQueue) >= int(dr.RcvWnd) && rcv.k.PeekSize() < 0
+		}
+		stuckA, stuckB := len(da.SndQueue)+len(da.SndBuf) > 0, len(db.SndQueue)+len(db.SndBuf) > 0
+		if !w.stream && w.cfg.bigMsg && (stuckA || stuckB) && (!stuckA || o1(w.a, w.b, &da, &db)) && (!stuckB || o1(w.b, w.a, &db, &da)) {
+			kind = "no-drain-msg-exceeds-rcvwnd"
 		}
 		w.viol(kind, fmt.Sprintf("no progress for 40 virtual minutes; after %d fair rounds: a backlog %d+%d, b backlog %d+%d, in flight %d/%d", deadline+1,
 			len(da.SndQueue), len(da.SndBuf), len(db.SndQueue), len(db.SndBuf), len(w.netAB), len(w.netBA)))
